@@ -124,6 +124,31 @@ def run(prop, tier, selftest_only=False):
             v["_interp"], v["_hashseed"], v["_b"], v["_batch"] = b["interp"], b["hashseed"], b["b"], b
             violating.append(v)
         samples.extend(r["samples"])
+    # C08 second stage: restart with only durable state surviving -- values pickled (after being hashed) by the
+    # batch workers are reloaded in FRESH processes of the same interpreter under ANOTHER hash seed
+    stage2 = {"checked": 0, "violations": []}
+    if prop == "C08":
+        by_interp = {}
+        for b, r in zip(batches, results):
+            for it in r.get("carry", []):
+                by_interp.setdefault(b["interp"], []).append(dict(it, producer_hashseed=b["hashseed"]))
+        s2jobs = []
+        for interp in sorted(by_interp):
+            items = by_interp[interp]
+            for i in range(0, len(items), 60):
+                s2jobs.append((interp, prng.derive(seed, prop, "stage2", interp, i) % (2 ** 32), items[i:i + 60]))
+
+        def do2(j):
+            res = hubutil.run_worker(j[0], j[1], {"engine": "A", "prop": prop, "tree": tree, "tier": tier, "mode": "reload_stage", "items": j[2]}, timeout=600)
+            return j, res
+
+        with ThreadPoolExecutor(max_workers=WORKERS) as ex:
+            for j, res in ex.map(do2, s2jobs):
+                stage2["checked"] += res["checked"]
+                for v in res["violations"]:
+                    it = next(x for x in j[2] if x["run"] == v["item"])
+                    stage2["violations"].append((v, j[0], j[1], it))
+        counters["fault_restart_reload_under_other_hash_seed"] = stage2["checked"]
     rows.sort()
     hubutil.dump_digests(prop, [(r[0], r[1]) for r in rows])
     evaluations = len(rows)
@@ -177,6 +202,28 @@ def run(prop, tier, selftest_only=False):
             json.dump(rec, fh, indent=1)
         print("VIOLATION property=%s replay=%s" % (prop, path))
         print("  fingerprint=%s interp=%s hashseed=%s run=%d ops=%d (from %d)" % (f, v["_interp"], v["_hashseed"], v["run"], len(ops), len(v["ops"])))
+        reported += 1
+        exit_code = 1
+    seen2 = set()
+    for v, interp, hs, it in stage2["violations"]:
+        f = v["fingerprint"]
+        if f in known:
+            print("KNOWN-FINDING: property=%s %s" % (prop, f))
+            continue
+        if f in seen2:
+            continue
+        seen2.add(f)
+        rec = {"property": prop, "engine": "A", "mode": "reload_stage", "fingerprint": f, "interp": interp, "hashseed": hs, "tier": tier, "base_seed": seed,
+               "detail": v, "items": [it], "note": "value hashed and pickled in a worker under hash seed %s, reloaded in a fresh process under hash seed %s" % (it["producer_hashseed"], hs)}
+        again = hubutil.run_worker(interp, hs, {"engine": "A", "prop": prop, "tree": tree, "tier": tier, "mode": "reload_stage", "items": [it]}, timeout=300)
+        if f not in [x["fingerprint"] for x in again["violations"]]:
+            unconfirmed.append((f, it["run"], None))
+            continue
+        path = os.path.join(hubutil.VERIF, "replays", "%s-%s-run%d.json" % (prop, prng.derive(f) % (10 ** 8), it["run"]))
+        with open(path, "w") as fh:
+            json.dump(rec, fh, indent=1)
+        print("VIOLATION property=%s replay=%s" % (prop, path))
+        print("  fingerprint=%s interp=%s hashseed=%s (producer hashseed %s) run=%d" % (f, interp, hs, it["producer_hashseed"], it["run"]))
         reported += 1
         exit_code = 1
     if unconfirmed and not reported:
